@@ -211,6 +211,10 @@ def transparency_rule(ctx, comp, ex, cls, cn):
         for fr in f.frames:
             if fr[0] == "py" and pmatch("Q_w in Q_r.transparent_for", fr[1]):
                 n += 1
+            elif fr[0] == "py" and "transparent_for" in tstr(fr[1]) and not has("Q_w in Q_r.transparent_for", fr[1]):
+                # transparency is a relation (read port, write port), not a flag of the read port
+                ctx.bad("C23.transparency-membership", f.site, f"{cls}.transparent_for.test[{cn}]", found=f"bypass decided by `{tstr(fr[1])}`",
+                        required="the same-cycle bypass from a write port is applied only if that write port is a member of the read port's transparent_for")
     for h in ex.of(HwAssign):
         for s in subterms(h.rhs) if h.rhs else []:
             if s[0] == "lc":
@@ -293,7 +297,11 @@ def check(ctx):
             totals["index"] += index_rule(ctx, comp, ex, cls, cn)
             totals["skip"] += c23x.skip_own_index_maps(ctx, ex, cls)
             totals["family"] = totals.get("family", 0) + c23x.index_families(ctx, ex, cls)
-            totals["transp"] += transparency_rule(ctx, comp, ex, cls, cn)
+            nt = transparency_rule(ctx, comp, ex, cls, cn)
+            totals["transp"] += nt
+            if cls in ("MultiReadMemory", "MultiportXORMemory", "MultiportILVTMemory") and k == 0:
+                ctx.check(nt >= 1, "C23.transparency-membership", comp.site, f"{cls}.transparent_for", found=f"{nt} membership test(s) `write_port in read_port.transparent_for`",
+                          required="this memory decides its same-cycle bypass per (read port, write port) by membership in transparent_for")
             totals["init"] += init_rule(ctx, comp, ex, cls, cn)
             if cls == "MultiportILVTMemory":
                 from . import c23y
